@@ -108,7 +108,8 @@ public:
 
         map_basic_basic m({{s, zero}});
         RCP<const Basic> const_term = d->subs(m);
-        if (const_term == d) {
+        // subs() may rebuild an unchanged expression: compare structurally
+        if (eq(*const_term, *d)) {
             p = Series::convert(*d);
             return;
         }
